@@ -181,8 +181,22 @@ fn transform(u: &mut Choices, f: &File, doc: &V) -> Option<Xform> {
                 if let Kind::Binary { rhs, .. } = &mut clause_at(&mut g, &s).kind {
                     *rhs = Expr::Query { some: false, q: var_q(&fresh, vec![]) };
                 }
-                add_let(&mut g, &s, lvl, Let { name: fresh, value: Expr::Lit(l.clone()) });
-                let mut note = format!("rhs literal {} -> let at {:?}", lit_text(&l), lvl);
+                // the inner definition may also be a function call that yields the literal
+                // (a function-valued `let` shadows like any other)
+                // (not under a negated operator: against a *resolved* value `!=` between different
+                // types PASSes - recorded finding F24 - while against a literal it FAILs)
+                let negated = c0.prefneg || matches!(c0.kind, Kind::Binary { opneg: true, .. });
+                let as_call = match &l {
+                    _ if negated => None,
+                    Lit::V(V::Int(n)) if kind == 1 && u.chance(1, 2) => Some(Expr::Call(Call { name: "parse_int".into(), args: vec![Expr::Lit(Lit::V(V::s(&n.to_string())))] })),
+                    Lit::V(V::Str(t)) if kind == 1 && !t.is_empty() && t.chars().all(|c| c.is_ascii_lowercase() || c.is_ascii_digit()) && u.chance(1, 2) => {
+                        Some(Expr::Call(Call { name: "to_lower".into(), args: vec![Expr::Lit(Lit::V(V::s(&t.to_uppercase())))] }))
+                    }
+                    _ => None,
+                };
+                let via_call = as_call.is_some();
+                add_let(&mut g, &s, lvl, Let { name: fresh, value: as_call.unwrap_or(Expr::Lit(l.clone())) });
+                let mut note = format!("rhs literal {} -> let{} at {:?}", lit_text(&l), if via_call { " (through a function call)" } else { "" }, lvl);
                 if kind == 1 && lvl != Level::File {
                     // shadowing: an outer definition of the same name with another value
                     g.lets.push(Let { name: "zv".into(), value: Expr::Lit(Lit::V(V::s("outer-shadowed"))) });
